@@ -245,6 +245,63 @@ func stressOnce(o *kit.Out, r *kit.Rand, w, per, snappers int, metricsOn bool, y
 		kit.B(metricsOn), kit.I(iter["success"]), kit.I(iter["fail"]), kit.I(iter["dropped"])}, "T", tags...)
 }
 
+// coarseClockHistory records outcomes straight on the run's progress.Stats with the durations a
+// coarse monotonic clock reports for very short iterations (multiples of its granularity, zero
+// included): an iteration measured at 0 ns is still one iteration in every count.
+func coarseClockHistory(o *kit.Out, r *kit.Rand) {
+	stats := &progress.Stats{}
+	res := run.NewResult(options.RunOptions{}, views.New(), stats)
+	gran := kit.Pick(r, int64(100), 42, 1000, 15_600_000)
+	w := int(kit.Pick(r, 1, 2, 8))
+	per := int(r.Range(20, 400))
+	zeroShare := int(kit.Pick(r, 30, 60, 100))
+	var ns, nf, nd atomic.Int64
+	var done atomic.Bool
+	var swg, wg sync.WaitGroup
+	swg.Add(1)
+	go func() {
+		defer swg.Done()
+		for k := 0; !done.Load(); k++ {
+			res.SnapshotProgress(cadence(k))
+			runtime.Gosched()
+		}
+	}()
+	for wi := 0; wi < w; wi++ {
+		seed := r.U64()
+		wg.Add(1)
+		go func() {
+			defer wg.Done()
+			lr := kit.NewRand(seed)
+			for i := 0; i < per; i++ {
+				d := int64(0)
+				if !lr.Chance(zeroShare) {
+					d = gran * lr.Range(1, 3)
+				}
+				switch lr.Intn(5) {
+				case 0, 1, 2:
+					stats.Record(metrics.SuccessResult, d)
+					ns.Add(1)
+				case 3:
+					stats.Record(metrics.FailedResult, d)
+					nf.Add(1)
+				default:
+					stats.Record(metrics.DroppedResult, 0)
+					nd.Add(1)
+				}
+			}
+		}()
+	}
+	wg.Wait()
+	done.Store(true)
+	swg.Wait()
+	res.GetTotals()
+	sn := res.Snapshot()
+	o.Count("history", "coarse clock (durations of 0 ns)")
+	o.Case("c01_ok", []string{kit.I(ns.Load()), kit.I(nf.Load()), kit.I(nd.Load()),
+		kit.I(sn.SuccessfulIterationDurations.Count), kit.I(sn.FailedIterationDurations.Count), kit.I(sn.DroppedIterationCount),
+		"F", "0", "0", "0"}, "T", "stress", "coarse", "nt")
+}
+
 func TestC01Stress(t *testing.T) {
 	o := kit.Get()
 	defer o.Close()
@@ -255,6 +312,9 @@ func TestC01Stress(t *testing.T) {
 		w := kit.Pick(r, 1, 2, 4, 8, 16, 32)
 		snappers := kit.Pick(r, 1, 1, 2, 3)
 		stressOnce(o, r, w, per, snappers, r.Chance(70), r.Bool())
+	}
+	for i := 0; i < kit.N(30, 300); i++ {
+		coarseClockHistory(o, r)
 	}
 }
 
